@@ -24,6 +24,7 @@ import (
 	"crypto/tls"
 	"crypto/x509"
 	"crypto/x509/pkix"
+	"database/sql"
 	"encoding/base64"
 	"encoding/json"
 	"fmt"
@@ -53,9 +54,15 @@ const (
 	c07SUp = iota
 	c07SDown
 	c07SErroring
+	c07SMisleading // erroring, and every diagnostic text contains the words "Invalid Credentials"
 )
 
-var c07StatusNames = []string{"SUp", "SDown", "SErroring"}
+var c07StatusNames = []string{"SUp", "SDown", "SErroring", "SMisleading"}
+
+// diagnostics of a replica that is NOT refusing the credentials (its result code is another one) but
+// whose text mentions the words go-ldap prints for result code 49
+var c07MisleadingTexts = []string{"Invalid Credentials", "upstream directory said: Invalid Credentials (retry later)",
+	`LDAP Result Code 49 "Invalid Credentials": relayed`, "backend busy; last error was Invalid Credentials for cn=proxy"}
 
 // ---------------------------------------------------------------- the directory
 
@@ -95,6 +102,7 @@ type c07Directory struct {
 	status    []int
 	binds     int
 	answered  int // binds that got a verdict (success / invalid credentials)
+	conns     []int // per replica: TCP connections that arrived (whatever became of them)
 	urls      []string
 }
 
@@ -109,6 +117,14 @@ func (d *c07Directory) handler(idx int) func(w ldapserver.ResponseWriter, m *lda
 		acct, outOfOrder := d.acct[string(r.Name())]
 		style := d.style
 		d.mu.Unlock()
+		if st == c07SMisleading {
+			codes := []int{ldapserver.LDAPResultBusy, ldapserver.LDAPResultUnavailable, ldapserver.LDAPResultOperationsError, ldapserver.LDAPResultOther,
+				ldapserver.LDAPResultUnwillingToPerform}
+			res := ldapserver.NewBindResponse(codes[n%len(codes)])
+			res.SetDiagnosticMessage(c07MisleadingTexts[(n/len(codes))%len(c07MisleadingTexts)])
+			w.Write(res)
+			return
+		}
 		if st == c07SErroring {
 			// any result code but success / invalidCredentials, with any diagnostic (also ones
 			// that look like a refusal's)
@@ -151,6 +167,7 @@ func (l *c07Listener) Accept() (net.Conn, error) {
 			return conn, err
 		}
 		l.d.mu.Lock()
+		l.d.conns[l.idx]++
 		down := l.d.status[l.idx] == c07SDown
 		l.d.mu.Unlock()
 		if down {
@@ -183,7 +200,7 @@ func c07ServerCert(t *testing.T) (tls.Certificate, *x509.CertPool) {
 func c07StartDirectory(t *testing.T, replicas int) (*c07Directory, *x509.CertPool) {
 	ldapserver.Logger = ldapserver.DiscardingLogger
 	cert, pool := c07ServerCert(t)
-	d := &c07Directory{passwords: map[string]string{}, acct: map[string]int{}, style: 1, status: make([]int, replicas)}
+	d := &c07Directory{passwords: map[string]string{}, acct: map[string]int{}, style: 1, status: make([]int, replicas), conns: make([]int, replicas)}
 	for i := 0; i < replicas; i++ {
 		idx := i
 		server := ldapserver.NewServer()
@@ -229,6 +246,7 @@ type c07Rec struct {
 	data    string // Argon2 hash
 	pw      int
 	expM    int64 // signed exp claim, model time
+	nbfM    int64 // not-before, model time (forged records; genuine ones: expM - 96 h)
 }
 
 type c07Hist struct {
@@ -253,6 +271,7 @@ type c07Hist struct {
 	rejectedAt  map[string]int64 // "u|pw" -> last answered rejection
 	confSeq     map[string]int   // the same two, as positions in the history
 	rejSeq      map[string]int
+	peer        *c07Peer        // another keymaster instance on the same primary database
 	void        bool            // the directory did not behave as scripted (a bind timed out under load)
 	rejOutage   map[string]bool // ... and whether the primary was not fully up then
 }
@@ -380,6 +399,26 @@ func (h *c07Hist) age(dt int64) {
 	h.e.res.bump("op:tick-" + strconv.FormatInt(dt/3600, 10) + "h")
 }
 
+// did a replica that is up receive a connection since the counters [before] were read?  (A login
+// that stops at an earlier replica never contacts it: that is keymaster's decision, not a directory
+// that failed to answer in time.)
+func (h *c07Hist) upContacted(before []int) bool {
+	h.d.mu.Lock()
+	defer h.d.mu.Unlock()
+	for i, s := range h.d.status {
+		if s == c07SUp && h.d.conns[i] > before[i] {
+			return true
+		}
+	}
+	return false
+}
+
+func (h *c07Hist) connCounts() []int {
+	h.d.mu.Lock()
+	defer h.d.mu.Unlock()
+	return append([]int(nil), h.d.conns...)
+}
+
 func (h *c07Hist) anyUp() bool {
 	h.d.mu.Lock()
 	defer h.d.mu.Unlock()
@@ -411,13 +450,14 @@ func (h *c07Hist) login(u, pw int) {
 	h.d.mu.Lock()
 	a0 := h.d.answered
 	h.d.mu.Unlock()
+	c0 := h.connCounts()
 	tBefore := time.Now().Unix()
 	rr, _ := e.env.serve(req)
 	tAfter := time.Now().Unix()
 	h.d.mu.Lock()
 	reallyAnswered := h.d.answered > a0
 	h.d.mu.Unlock()
-	if reallyAnswered != answered && pw != 0 {
+	if reallyAnswered != answered && pw != 0 && h.upContacted(c0) {
 		// the environment's answer is an input of the case: a replica that is up but did not
 		// get to answer within the bind timeout (machine under load) voids the history
 		h.void = true
@@ -499,6 +539,29 @@ func (h *c07Hist) login(u, pw int) {
 		e.res.hit(verifHit{Key: "C07:final:" + k, Oracle: "when a directory server answers, its verdict is final",
 			What: fmt.Sprintf("login %s with password #%d: a replica answered, the directory says %v, keymaster said %v (status %d)", raw, pw, dirOK, verdict, rr.Code), Case: kase, Observed: obs})
 	}
+	if !answered && (after.signed[slot] != before.signed[slot] || afterC.signed[slot] != beforeC.signed[slot]) {
+		// c07_outage_login_pure: the record in the store is the one a directory-confirmed login wrote
+		e.res.hit(verifHit{Key: "C07:outage-login:record-changed", Oracle: "a cached hash is one written by a directory-confirmed login: a login that no directory server answered writes nothing",
+			What: fmt.Sprintf("no replica answered the login of %s with password #%d (verdict %v), yet the user's stored record changed (primary: %v, cache: %v; new expiry column %d s from now)", raw, pw, verdict,
+				after.signed[slot] != before.signed[slot], afterC.signed[slot] != beforeC.signed[slot], after.signed[slot].exp-tAfter), Case: kase, Observed: obs})
+	}
+	if !answered && verdict && e.mode == c15Up {
+		// the primary answers: its CURRENT row decides, the local cache database has no say
+		why := ""
+		if row, has := before.signed[slot]; !has {
+			why = "holds no record of the user"
+		} else if id, known := h.jwsID[row.jws]; !known {
+			why = "holds an unknown record"
+		} else if r := h.recs[id]; !r.genuine || r.sub != c07Users[u] || r.pw != pw {
+			why = fmt.Sprintf("holds a record (%s, subject %q) of password #%d", r.kind, r.sub, r.pw)
+		} else if r.expM <= h.now || row.exp+h.offset <= h.now {
+			why = "holds an expired record"
+		}
+		if why != "" {
+			e.res.hit(verifHit{Key: "C07:cache-accept:primary-row-disagrees", Oracle: "the local cache only fills outages: while the primary store answers, the verdict follows the primary's current row",
+				What: fmt.Sprintf("no replica answered, the primary database answers and %s, yet login %s with password #%d was accepted", why, raw, pw), Case: kase, Observed: obs})
+		}
+	}
 	if !answered && verdict {
 		t0, ok := h.confirmedAt[key]
 		switch {
@@ -552,6 +615,114 @@ func (h *c07Hist) login(u, pw int) {
 		}
 	}
 	e.res.eval(fmt.Sprintf("login|%d|%v|%v|%v|%s", u, answered, dirOK, verdict, c15ModeNames[e.mode]), true)
+}
+
+// ---------------------------------------------------------------- the other instance
+//
+// The normal HA set-up: a second keymasterd with the same signing key and the same directory, the
+// SAME primary database (a connection of its own, not touched by this instance's outage modes) and
+// a local cache database of its own.  Its logins go through the real lib/pwauth/ldap authenticator
+// with the real storage functions of a second RuntimeState.
+type c07Peer struct {
+	st      *RuntimeState
+	pa      *pwldap.PasswordAuthenticator // the authenticator in use (same bind patterns as this instance's)
+	paTwo   *pwldap.PasswordAuthenticator
+	paOne   *pwldap.PasswordAuthenticator
+	cacheDB *sql.DB
+}
+
+func c07NewPeer(t *testing.T, e *c15Env, urls []string, pool *x509.CertPool) *c07Peer {
+	st := e.st
+	peer := &RuntimeState{Config: st.Config, HostIdentity: st.HostIdentity, Signer: st.Signer, KeymasterPublicKeys: st.KeymasterPublicKeys,
+		dbType: "sqlite", remoteDBQueryTimeout: 20 * time.Second, logger: st.logger}
+	var err error
+	if peer.db, err = sql.Open("sqlite3", e.primFile); err != nil {
+		t.Fatal(err)
+	}
+	peer.db.SetMaxIdleConns(0)
+	if peer.cacheDB, err = initFileDBSQLite(filepath.Join(st.Config.Base.DataDirectory, "peer_"+cachedDBFilename), nil); err != nil {
+		t.Fatal(err)
+	}
+	p := &c07Peer{st: peer, cacheDB: peer.cacheDB}
+	if p.paTwo, err = pwldap.New(urls, c07Patterns, 3, pool, peer, st.logger); err != nil {
+		t.Fatal(err)
+	}
+	if p.paOne, err = pwldap.New(urls, c07Patterns[:1], 3, pool, peer, st.logger); err != nil {
+		t.Fatal(err)
+	}
+	p.pa = p.paTwo
+	t.Cleanup(func() { peer.db.Close(); peer.cacheDB.Close() })
+	return p
+}
+
+// a login of (u, pw) at the other instance
+func (h *c07Hist) peerLogin(u, pw int) {
+	e := h.e
+	e.settle()
+	h.tick()
+	before := e.snapP()
+	beforeC := e.snapC()
+	answered := h.anyUp()
+	_, outOfOrder := h.acct[u]
+	dirOK := u != 3 && h.dirPw[u] == pw && pw != 0 && !outOfOrder
+	h.d.mu.Lock()
+	a0 := h.d.answered
+	h.d.mu.Unlock()
+	c0 := h.connCounts()
+	verdict, err := h.peer.pa.PasswordAuthenticate(c07Users[u], []byte(c07PwString(pw)))
+	if err != nil {
+		e.t.Fatalf("peer login: %v", err)
+	}
+	h.d.mu.Lock()
+	reallyAnswered := h.d.answered > a0
+	h.d.mu.Unlock()
+	if reallyAnswered != answered && pw != 0 && h.upContacted(c0) {
+		h.void = true
+		e.res.bump("void:directory-did-not-answer-as-scripted")
+	}
+	after := e.snapP()
+	afterC := e.snapC()
+	slot := c07Users[u] + "|1"
+	key := fmt.Sprintf("%d|%d", u, pw)
+	if newRow, has := after.signed[slot]; has {
+		if _, known := h.jwsID[newRow.jws]; !known {
+			c, err := c07DecodeClaims(newRow.jws)
+			if err != nil {
+				e.t.Fatalf("record stored by the other instance does not decode: %v", err)
+			}
+			h.recs = append(h.recs, c07Rec{genuine: true, kind: "genuine", sub: c.Subject, data: c.Data, pw: pw, expM: c.Expiration + h.offset})
+			h.jwsID[newRow.jws] = len(h.recs) - 1
+			if codeNow := c.Expiration + h.offset - 96*3600; codeNow > h.now {
+				h.ops = append(h.ops, fmt.Sprintf("(PTick (%d)%%Z)", codeNow-h.now))
+				h.outs = append(h.outs, "None")
+				h.snaps = append(h.snaps, fmt.Sprintf("(%d%%nat, %s, %s)", len(h.ops)-1, h.coqDB(before), h.coqDB(beforeC)))
+				h.now = codeNow
+			}
+		}
+	}
+	h.ops = append(h.ops, fmt.Sprintf("(PeerLogin %d%%N %d%%N)", u, pw))
+	h.outs = append(h.outs, "None")
+	h.human = append(h.human, fmt.Sprintf("PeerLogin %s pw%d [%v]->%v", c07Users[u], pw, h.d.status, verdict))
+	h.snaps = append(h.snaps, fmt.Sprintf("(%d%%nat, %s, %s)", len(h.ops)-1, h.coqDB(after), h.coqDB(afterC)))
+	e.res.bump(fmt.Sprintf("peer-login:answered=%v:%v", answered, verdict))
+	if h.void {
+		return
+	}
+	if answered && verdict != dirOK {
+		e.res.hit(verifHit{Key: "C07:final:peer-against-directory", Oracle: "when a directory server answers, its verdict is final",
+			What: fmt.Sprintf("other instance: login %s with password #%d: directory says %v, keymaster said %v", c07Users[u], pw, dirOK, verdict),
+			Case: map[string]interface{}{"history": h.human}})
+	}
+	if answered && dirOK && verdict {
+		h.confirmedAt[key] = h.now
+		h.confSeq[key] = len(h.ops)
+	}
+	if answered && !dirOK {
+		h.rejectedAt[key] = h.now
+		h.rejSeq[key] = len(h.ops)
+		h.rejOutage[key] = false
+	}
+	e.res.eval(fmt.Sprintf("peer-login|%d|%v|%v|%v", u, answered, dirOK, verdict), true)
 }
 
 func (h *c07Hist) setServer(i, st int) {
@@ -657,7 +828,7 @@ func (h *c07Hist) tamper() {
 		}
 		expM := h.now + []int64{-100, 96 * 3600, 10000000}[rng.Intn(3)]
 		id := len(h.recs)
-		h.recs = append(h.recs, c07Rec{genuine: false, kind: kind, sub: c07Users[slot], data: hash, pw: pw, expM: expM})
+		h.recs = append(h.recs, c07Rec{genuine: false, kind: kind, sub: c07Users[slot], data: hash, pw: pw, expM: expM, nbfM: h.now - 5})
 		put(h.mint(id))
 		h.record(fmt.Sprintf("(Tamper %s %d%%N (RForged %d%%N %d%%N (%d)%%Z (%d)%%Z) (%d)%%Z)", which, slot, slot, pw, h.now-5, expM, col), "None")
 		h.e.res.bump("op:tamper-forged-" + kind)
@@ -686,13 +857,15 @@ func (h *c07Hist) randomOp(allowTamper bool) {
 	rng := h.rng
 	u := 1 + rng.Intn(2)
 	switch w := rng.Intn(100); {
-	case w < 42:
+	case w < 38:
 		if rng.Intn(12) == 0 {
 			u = 3
 		}
 		h.login(u, h.somePw(u))
+	case w < 42:
+		h.peerLogin(u, h.somePw(u))
 	case w < 56:
-		h.setServer(rng.Intn(len(h.d.status)), rng.Intn(3))
+		h.setServer(rng.Intn(len(h.d.status)), []int{c07SUp, c07SUp, c07SDown, c07SDown, c07SErroring, c07SErroring, c07SMisleading}[rng.Intn(7)])
 	case w < 60:
 		if _, out := h.acct[u]; out && rng.Intn(2) == 0 {
 			h.setAcct(u, -1)
@@ -714,6 +887,19 @@ func (h *c07Hist) randomOp(allowTamper bool) {
 			h.sync()
 		}
 	}
+}
+
+// the records as numbered here (the numbers the snapshots carry), for the observation predicates
+func (h *c07Hist) emitRecs() string {
+	var l []string
+	for _, r := range h.recs {
+		nbf := r.nbfM
+		if r.genuine {
+			nbf = r.expM - 96*3600
+		}
+		l = append(l, fmt.Sprintf("mk_jws %s %d%%N %d%%N (%d)%%Z (%d)%%Z", coqBool(r.genuine), c15UserNo(r.sub), r.pw, nbf, r.expM))
+	}
+	return "[" + strings.Join(l, "; ") + "]"
 }
 
 func (h *c07Hist) emit(n, extraPatterns int) string {
@@ -738,6 +924,7 @@ func TestVerif_C07(t *testing.T) {
 	if err != nil {
 		t.Fatal(err)
 	}
+	peer := c07NewPeer(t, e, dirSrv.urls, pool)
 	htChecker := st.passwordChecker
 	st.passwordChecker = pa
 	st.Config.Ldap.LDAPTargetURLs = strings.Join(dirSrv.urls, ",")
@@ -752,7 +939,7 @@ func TestVerif_C07(t *testing.T) {
 	if verifThorough() {
 		nHist, maxOps = 1500, 14
 	}
-	var cases, idx []string
+	var cases, idx, recTables []string
 	voided := 0
 	run := func(i int, body func(h *c07Hist)) {
 		e.wipe()
@@ -766,10 +953,13 @@ func TestVerif_C07(t *testing.T) {
 		dirSrv.mu.Unlock()
 		h := &c07Hist{e: e, d: dirSrv, rng: rng, attacker: attacker, jwsID: map[string]int{}, dirPw: map[int]int{}, oldPw: map[int][]int{},
 			tampered: map[int]bool{}, acct: map[int]int{}, confirmedAt: map[string]int64{}, rejectedAt: map[string]int64{}, rejOutage: map[string]bool{},
-			confSeq: map[string]int{}, rejSeq: map[string]int{}}
+			confSeq: map[string]int{}, rejSeq: map[string]int{}, peer: peer}
+		peer.cacheDB.Exec("DELETE FROM expiring_signed_user_data")
+		peer.pa = peer.paTwo
 		extraPatterns := 1
 		if i%2 == 1 {
 			st.passwordChecker = paOne
+			peer.pa = peer.paOne
 			extraPatterns = 0
 			h.human = append(h.human, "[one bind pattern]")
 		} else {
@@ -785,6 +975,7 @@ func TestVerif_C07(t *testing.T) {
 			return
 		}
 		cases = append(cases, h.emit(len(dirSrv.status), extraPatterns))
+		recTables = append(recTables, h.emitRecs())
 		idx = append(idx, strings.Join(h.human, " "))
 		if i < 3 {
 			res.sample(map[string]interface{}{"history": h.human})
@@ -922,6 +1113,92 @@ func TestVerif_C07(t *testing.T) {
 			h.login(2, 2)
 			h.login(2, 3)
 		},
+		func(h *c07Hist) { // a sick replica whose diagnostic TEXT mentions "Invalid Credentials" under another result code
+			h.changePw(1, 1)
+			h.changePw(2, 2)
+			h.login(1, 1)
+			h.login(2, 2)
+			h.setServer(0, c07SMisleading)
+			for k := 0; k < 6; k++ { // every result code / text of the rotation, the healthy second replica decides
+				h.login(1, 1)
+			}
+			h.login(1, 2)
+			h.setServer(1, c07SMisleading)
+			for k := 0; k < 5; k++ { // nobody answers: the cache fills the outage, nothing is evicted
+				h.login(2, 2)
+			}
+			h.login(2, 1)
+			h.setServer(1, c07SDown)
+			h.login(1, 1)
+			h.setMode(c15Dead)
+			h.login(2, 2)
+		},
+		func(h *c07Hist) { // a long directory outage: the hash is USED inside its 96 h, then again after its original expiry
+			h.changePw(1, 1)
+			h.changePw(2, 2)
+			h.login(1, 1)
+			h.login(2, 2)
+			h.sync()
+			h.age(180007)
+			allDown(h)
+			h.login(1, 1) // 50 h after the confirmation: the cache fills the outage
+			h.age(180007) // 100 h after the confirmation, 50 h after the offline login
+			h.login(1, 1)
+			h.login(2, 2) // never used meanwhile: expired too
+			h.setMode(c15Dead)
+			h.login(1, 1)
+		},
+		func(h *c07Hist) { // the same at the boundary: 61 s before / after the expiry of the CONFIRMED record
+			h.changePw(1, 1)
+			h.login(1, 1)
+			h.age(340003)
+			allDown(h)
+			h.login(1, 1)
+			if t0, ok := h.confirmedAt["1|1"]; ok {
+				h.age(t0 + 96*3600 - h.modelNow() - 61)
+				h.login(1, 1)
+				h.age(122)
+				h.login(1, 1)
+				h.setMode(c15Slow)
+				h.login(1, 1)
+			}
+		},
+		func(h *c07Hist) { // one read of the primary times out; then the OTHER instance evicts in the shared primary; outage
+			h.changePw(1, 1)
+			h.changePw(2, 2)
+			h.login(1, 1)
+			h.login(2, 2)
+			h.setMode(c15Slow)
+			h.login(2, 5) // bob mistypes while the primary hangs: GetSigned times out once
+			h.setMode(c15Up)
+			h.changePw(1, 3)
+			h.peerLogin(1, 1) // the directory rejects the old password there: evicted from the primary
+			allDown(h)
+			h.login(1, 1) // the primary answers and has no row: refused
+			h.login(2, 2)
+			h.login(1, 3)
+		},
+		func(h *c07Hist) { // ... then the other instance REFRESHES in the shared primary; outage
+			h.changePw(1, 1)
+			h.changePw(2, 2)
+			h.login(1, 1)
+			h.login(2, 2)
+			h.setMode(c15Slow)
+			h.login(1, 5)
+			h.setMode(c15Up)
+			h.changePw(1, 3)
+			h.peerLogin(1, 3) // confirmed there: the primary's row is now the hash of #3
+			allDown(h)
+			h.login(1, 3) // the primary's current row decides: accepted
+			h.login(1, 1) // ... and the old one refused
+			h.setMode(c15Slow)
+			h.login(1, 1) // now the primary does NOT answer: our own cache still holds #1 (known limit: the cache mirrors at the next copy)
+			h.setMode(c15Up)
+			h.sync()
+			h.setMode(c15Slow)
+			h.login(1, 1)
+			h.login(1, 3)
+		},
 		func(h *c07Hist) { // known finding: the primary is unreachable when the directory rejects
 			h.changePw(1, 1)
 			h.login(1, 1)
@@ -937,7 +1214,7 @@ func TestVerif_C07(t *testing.T) {
 	}
 	for i, sc := range scripted {
 		run(2*i, sc) // two bind patterns
-		if i == 0 || i == 2 || i == len(scripted)-2 {
+		if i == 0 || i == 2 || i == 7 || i >= len(scripted)-6 && i < len(scripted)-1 {
 			run(2*i+1, sc) // one bind pattern: the cache/outage basics, mixed replica answers, account-state refusals
 		}
 	}
@@ -956,13 +1233,29 @@ func TestVerif_C07(t *testing.T) {
 			for j := 0; j < n; j++ {
 				h.randomOp(tamper)
 			}
+			shape := rng.Intn(5)
+			if shape == 0 {
+				// one read of the primary times out, the primary answers again, and the other instance
+				// evicts / refreshes a hash in the shared primary
+				v := 1 + rng.Intn(2)
+				h.setMode(c15Slow)
+				h.login(1+rng.Intn(2), 5)
+				h.setMode(c15Up)
+				old := h.dirPw[v]
+				h.changePw(v, 1+old%4)
+				if rng.Intn(2) == 0 {
+					h.peerLogin(v, old)
+				} else {
+					h.peerLogin(v, h.dirPw[v])
+				}
+			}
 			// whatever happened: take the whole directory away and try the passwords
 			for k := range h.d.status {
 				if h.d.status[k] == c07SUp {
-					h.setServer(k, 1+rng.Intn(2))
+					h.setServer(k, 1+rng.Intn(3))
 				}
 			}
-			if rng.Intn(2) == 0 {
+			if shape != 0 && rng.Intn(2) == 0 {
 				h.setMode(c15RandomMode(rng, true))
 			}
 			for u := 1; u <= 2; u++ {
@@ -972,6 +1265,19 @@ func TestVerif_C07(t *testing.T) {
 				}
 			}
 			h.login(1+rng.Intn(2), 1+rng.Intn(5))
+			if shape == 1 || shape == 2 {
+				// the outage goes on: the clock passes the expiry of a hash the directory confirmed, which may
+				// have been used meanwhile (61 s before and after the ORIGINAL expiry)
+				u := 1 + rng.Intn(2)
+				if t0, ok := h.confirmedAt[fmt.Sprintf("%d|%d", u, h.dirPw[u])]; ok {
+					if left := t0 + 96*3600 - h.modelNow(); left > 200 {
+						h.age(left - 61)
+						h.login(u, h.dirPw[u])
+						h.age(122)
+						h.login(u, h.dirPw[u])
+					}
+				}
+			}
 		})
 	}
 	res.Extra["histories"] = len(cases)
@@ -1027,6 +1333,10 @@ func TestVerif_C07(t *testing.T) {
 	sb.WriteString("Definition cases : list pw_case := [\n" + strings.Join(cases, ";\n") + "\n].\n")
 	sb.WriteString("Definition c07_ncases := Eval vm_compute in length cases.\nPrint c07_ncases.\n")
 	sb.WriteString("Definition c07_mismatches := Eval vm_compute in mismatches (fun c => negb (pw_case_ok c)) cases.\nPrint c07_mismatches.\n")
+	// the property's predicates on the OBSERVATION of the mismatching cases (a failing input when they hold)
+	sb.WriteString("Definition c07_renewed_violating := Eval vm_compute in filter (fun i => match nth_error cases i with Some c => outage_login_renewed c | None => false end) c07_mismatches.\nPrint c07_renewed_violating.\n")
+	sb.WriteString("Definition rec_tables : list (list jws) := [\n" + strings.Join(recTables, ";\n") + "\n].\n")
+	sb.WriteString("Definition c07_stale_violating := Eval vm_compute in filter (fun i => match nth_error cases i, nth_error rec_tables i with Some c, Some tb => stale_cache_decided tb c | _, _ => false end) c07_mismatches.\nPrint c07_stale_violating.\n")
 	// the backend table: (lower-case name, index of its password in the list above)
 	sb.WriteString("Definition btable : list (bs * N) := [(" + coqPacked([]byte("alice")) + ", 0%N); (" + coqPacked([]byte("bob")) + ", 1%N); (" + coqPacked([]byte("admin")) + ", 2%N)].\n")
 	sb.WriteString("Definition bfile (u : bs) (p : bs) : bool := existsb (fun e => bs_eqb (fst e) u && bs_eqb [snd e] p) btable.\n")
